@@ -105,6 +105,24 @@ func registerRich(regTool func(*mcp.Tool, func(context.Context, *mcp.CallToolReq
 		return &mcp.CallToolResult{Content: []mcp.Content{mcp.NewTextContent("a"), mcp.NewImageContent("aGk=", "image/png"),
 			mcp.NewEmbeddedResource(mcp.TextResourceContents{URI: "r://e", Text: "emb"})}}, nil
 	})
+	if set == "dup" {
+		// the same names registered twice with different descriptions and handlers: the registries must agree on which one counts
+		regTool(mcp.NewTool("echo", mcp.WithDescription("second registration of echo"), mcp.WithString("nonce")), func(ctx context.Context, req *mcp.CallToolRequest) (*mcp.CallToolResult, error) {
+			return mcp.NewTextResult("SECOND:" + nonce(req)), nil
+		})
+		regPrompt(&mcp.Prompt{Name: "p-dup", Description: "first"}, func(ctx context.Context, req *mcp.GetPromptRequest) (*mcp.GetPromptResult, error) {
+			return &mcp.GetPromptResult{Description: "first"}, nil
+		})
+		regPrompt(&mcp.Prompt{Name: "p-dup", Description: "second"}, func(ctx context.Context, req *mcp.GetPromptRequest) (*mcp.GetPromptResult, error) {
+			return &mcp.GetPromptResult{Description: "second"}, nil
+		})
+		regRes(&mcp.Resource{URI: "r://dup", Name: "first"}, func(ctx context.Context, req *mcp.ReadResourceRequest) (mcp.ResourceContents, error) {
+			return mcp.TextResourceContents{URI: "r://dup", Text: "first"}, nil
+		})
+		regRes(&mcp.Resource{URI: "r://dup", Name: "second"}, func(ctx context.Context, req *mcp.ReadResourceRequest) (mcp.ResourceContents, error) {
+			return mcp.TextResourceContents{URI: "r://dup", Text: "second"}, nil
+		})
+	}
 	if set == "set2" {
 		regTool(mcp.NewTool("extra", mcp.WithDescription("only in set2")), func(ctx context.Context, req *mcp.CallToolRequest) (*mcp.CallToolResult, error) {
 			return mcp.NewTextResult("extra"), nil
